@@ -166,7 +166,7 @@ CLAIMS = {
          "raises its owner count by exactly the handle the result holds, returns a shared context buffer or a fresh singly-owned one, and reads the value the "
          "sharing-free semantics gives; after ANY history every context buffer has its original payload and owner count and every execution returned what it "
          "returns alone; with every result kept alive instead of dropped, each result read at the very end is still what its program yields alone (a value once obtained is never changed by a later execution); and for EVERY interleaving of clone / drop / allocate / append-through-make_mut steps by any number of threads (C05_any_interleaving, an operation-level machine over the same store primitives) owner counts stay exactly the handles in existence and every buffer the context holds keeps its payload. The heap model is tied to objects.rs by comparing, per program, value, identity of the result buffer (Arc::ptr_eq) and every "
-         "context buffer's Arc::strong_count. Not modelled: the memory model (steps are atomic), nested buffers and macros in the heap model."),
+         "context buffer's Arc::strong_count (the context being the sole owner of its buffers), and the operation-level machine is tied to std::sync::Arc itself by random clone / drop / allocate / make_mut sequences on real handles whose owner counts and payloads must be the machine's. Not modelled: the memory model (steps are atomic), nested buffers and macros in the heap model."),
  "C06": ("Theorems that Eval.eval (a structural Fixpoint transcribing Value::resolve) returns the left operand's outcome "
          "and host-call log alone when && / || are decided by it, evaluates exactly one branch of ?:, and propagates a "
          "left error - for every context and operand expression, hence at every depth and inside macro bodies. Tied to the "
